@@ -1016,8 +1016,9 @@ class CPCCA(BaseModelCrossSet):
 
     @staticmethod
     def _normalize_data(X, dim):
-        # Assume centered data
-        return X / X.std(dim)
+        # Assume centered data; use the same (N-1) normalization as the
+        # cross-covariance so that the result is a genuine correlation
+        return X / X.std(dim, ddof=1)
 
 
 class ComplexCPCCA(CPCCA):
